@@ -342,6 +342,8 @@ impl<VM: VMBinding> FreeListPageResource<VM> {
         // if (VM.config.ZERO_PAGES_ON_RELEASE)
         //     VM.memory.zero(false, first, Conversions.pagesToBytes(pages));
         debug_assert!(pages as usize <= self.common.accounting.get_committed_pages());
+        #[cfg(mmtk_verif)]
+        crate::verif::verif_emit_release("freelist", first, pages as usize);
 
         if self.protect_memory_on_release.is_some() {
             self.mprotect(first, pages as _);
